@@ -22,6 +22,8 @@
 //!                  the instrumented child answers <a> without consulting its fd.
 //!   "pe"           process_events on the wrapper without a ready child (kick fd / direct call)
 //!   "remove" | "replace" | "map"   applied through the kept Dispatcher (`as_source_mut()`)
+//!   "remove@cb" | "replace@cb"     directly after a "child:<a>" / "pe" call: the parent makes the change inside
+//!                  that same process_events and returns PostAction::Reregister (documented in-callback use)
 //!
 //! Trace events: reset, step, call, child_reg / child_unreg / child_rereg / child_pe / child_drop,
 //! cb, ret (with the kernel's epoll view `ep`), stepret, snap (epoll view + timer wheel length), end.
@@ -54,6 +56,9 @@ struct Shared {
     loop_rereg: Cell<u32>,
     /// teardown: do not log
     muted: Cell<bool>,
+    /// remove() / replace() the parent is to make inside its process_events (the documented in-callback
+    /// use: "you must return PostAction::Reregister from your own event source's process_events()")
+    post: RefCell<Option<Post>>,
     epfd: Cell<RawFd>,
     /// child id -> fd registered with the poller by that child (fd-backed children only)
     fds: RefCell<BTreeMap<i64, RawFd>>,
@@ -66,6 +71,7 @@ thread_local! {
         in_dispatch: Cell::new(false),
         loop_rereg: Cell::new(0),
         muted: Cell::new(false),
+        post: RefCell::new(None),
         epfd: Cell::new(-1),
         fds: RefCell::new(BTreeMap::new()),
     };
@@ -99,6 +105,11 @@ fn res_fields(r: &calloop::Result<()>) -> (&'static str, i64) {
         Err(calloop::Error::IoError(e)) => ("err", e.raw_os_error().unwrap_or(-1) as i64),
         Err(_) => ("err", -2),
     }
+}
+
+enum Post {
+    Remove,
+    Replace(Child, i64),
 }
 
 // -------------------------------------------------------------------------------------- the child
@@ -283,7 +294,22 @@ impl EventSource for Parent {
                     Err(_) => "err",
                 };
                 log("ret", json!({"op": "pe", "r": s, "errno": 0, "ep": ep_children()}));
-                r
+                // a change made by the parent during its own process_events
+                match SH.with(|s| s.post.borrow_mut().take()) {
+                    None => r,
+                    Some(Post::Remove) => {
+                        log("call", json!({"op": "remove", "by": "callback"}));
+                        self.t.remove();
+                        log("ret", json!({"op": "remove", "r": "ok", "errno": 0, "ep": ep_children()}));
+                        r.map(|a| a | PostAction::Reregister)
+                    }
+                    Some(Post::Replace(child, c)) => {
+                        log("call", json!({"op": "replace", "by": "callback", "c": c}));
+                        self.t.replace(child);
+                        log("ret", json!({"op": "replace", "r": "ok", "errno": 0, "ep": ep_children()}));
+                        r.map(|a| a | PostAction::Reregister)
+                    }
+                }
             }
             Err(_) => {
                 log("ret", json!({"op": "pe", "r": "panic", "errno": 0, "ep": ep_children()}));
@@ -443,12 +469,33 @@ impl<'l> Driver<'l> {
         out
     }
 
-    fn step(&mut self, i: i64, call: &str, loop_did_rereg: &mut bool) {
+    /// returns true when the next call (a "remove@cb" / "replace@cb") was made inside this one
+    fn step(&mut self, i: i64, call: &str, next: Option<&str>, loop_did_rereg: &mut bool) -> bool {
         log("step", json!({"i": i, "call": call}));
         let (name, direct) = match call.strip_suffix("@direct") {
             Some(n) => (n, true),
             None => (call, false),
         };
+        // "remove@cb" / "replace@cb" not preceded by a process_events step: made from outside the loop
+        let name = name.strip_suffix("@cb").unwrap_or(name);
+        let mut consumed = false;
+        if (name == "pe" || name.starts_with("child:")) && !direct {
+            match next {
+                Some("remove@cb") => {
+                    SH.with(|s| *s.post.borrow_mut() = Some(Post::Remove));
+                    consumed = true;
+                }
+                Some("replace@cb") if (self.next_child as usize) <= self.kinds.len() => {
+                    let c = self.next_child;
+                    self.next_child += 1;
+                    let kind = self.kinds[(c - 1) as usize].clone();
+                    let child = make_child(c, &kind, &mut self.peers);
+                    SH.with(|s| *s.post.borrow_mut() = Some(Post::Replace(child, c)));
+                    consumed = true;
+                }
+                _ => {}
+            }
+        }
         let was_loop_rereg = std::mem::replace(loop_did_rereg, false);
         let out: Value = match name {
             "register" => match self.token {
@@ -517,7 +564,13 @@ impl<'l> Driver<'l> {
                 log("ret", json!({"op": "map", "r": "ok", "m": r, "errno": 0, "ep": ep_children()}));
                 json!({"via": "dispatcher", "res": {"r": "ok", "msg": ""}})
             }
-            "pe" => self.pe(None, direct),
+            "pe" => {
+                let v = self.pe(None, direct);
+                if v["via"] != "direct" && SH.with(|s| s.loop_rereg.get()) > 0 {
+                    *loop_did_rereg = true;
+                }
+                v
+            }
             other => match other.strip_prefix("child:").and_then(parse_action) {
                 Some(a) => {
                     let v = self.pe(Some(a), direct);
@@ -530,7 +583,16 @@ impl<'l> Driver<'l> {
             },
         };
         log("stepret", json!({"i": i, "via": out["via"], "r": out["res"]["r"], "msg": out["res"]["msg"]}));
+        if consumed {
+            // never left behind: if process_events was not reached the change did not happen
+            let left = SH.with(|s| s.post.borrow_mut().take());
+            let r = if left.is_some() { "not_made" } else { "ok" };
+            drop(left);
+            log("step", json!({"i": i + 1, "call": next.unwrap_or("")}));
+            log("stepret", json!({"i": i + 1, "via": "callback", "r": r, "msg": ""}));
+        }
         self.snap(i);
+        consumed
     }
 }
 
@@ -571,13 +633,23 @@ fn run_scenario(scn: &Value) {
     let mut d = Driver { lp, disp, token: None, enabled: false, kinds, next_child, peers, kick_tx };
 
     let mut loop_did_rereg = false;
-    for (i, call) in calls.iter().enumerate() {
-        let r = catch_unwind(AssertUnwindSafe(|| d.step(i as i64, call, &mut loop_did_rereg)));
-        if r.is_err() {
-            log("panic", json!({"i": i as i64}));
-            break;
+    let mut i = 0;
+    while i < calls.len() {
+        let next = calls.get(i + 1).map(|s| s.as_str());
+        let r = catch_unwind(AssertUnwindSafe(|| d.step(i as i64, &calls[i], next, &mut loop_did_rereg)));
+        match r {
+            Ok(consumed) => i += if consumed { 2 } else { 1 },
+            Err(_) => {
+                log("panic", json!({"i": i as i64}));
+                break;
+            }
         }
     }
+    SH.with(|s| {
+        s.muted.set(true);
+        s.post.borrow_mut().take();
+        s.muted.set(false);
+    });
     log("end", json!({"id": scn["id"]}));
 
     // teardown (not part of the scenario, not logged)
